@@ -18,5 +18,7 @@ int main() {
   std::printf("k MAX_AMPL_OPTIONS %d\n", (int)mp::MAX_AMPL_OPTIONS);
   std::printf("k ARITH_LAST %d\n", (int)arith::LAST);
   std::printf("k READ_BOUNDS_FIRST %d\n", 1);
+  std::printf("k FUNC_NUMERIC %d\n", (int)func::NUMERIC);
+  std::printf("k FUNC_SYMBOLIC %d\n", (int)func::SYMBOLIC);
   return 0;
 }
